@@ -370,3 +370,40 @@ def _walk_local(node):
         first = False
         yield n
         stack.extend(ast.iter_child_nodes(n))
+
+
+class CondTrace(PathFacts):
+    """Path-sensitive record of the branch conditions (and, optionally, of marker facts generated by
+    statements) under which selected statements execute.  A condition fact is ("c", text, truth, names);
+    ``self.tests[text]`` keeps one AST for each text so that callers can reason about it."""
+
+    CAP = 2048
+
+    def __init__(self, want, marks=None):
+        self.want = want          # stmt -> bool : record the state reaching this statement
+        self.marks = marks        # stmt -> iterable of marker facts (strings) generated by the statement
+        self.hits = []            # (stmt, frozenset_of_alternatives)
+        self.tests = {}
+
+    def fact_names(self, f):
+        return set(f[3]) if isinstance(f, tuple) and f[0] == "c" else set()
+
+    def cond_facts(self, test, truth):
+        out = set()
+        for atom, t in [(test, truth)] + [a for a in split_and(test, truth) if a[0] is not test]:
+            txt = ast.unparse(atom)
+            self.tests.setdefault(txt, atom)
+            names = tuple(sorted({n.id for n in ast.walk(atom) if isinstance(n, ast.Name)} - {"self"}))
+            out.add(("c", txt, t, names))
+        return out
+
+    def gen(self, stmt, alt):
+        return set(self.marks(stmt)) if self.marks else set()
+
+    def visit(self, stmt, state):
+        if self.want(stmt):
+            self.hits.append((stmt, state))
+
+
+def conds(alt):
+    return {(f[1], f[2]) for f in alt if isinstance(f, tuple) and f[0] == "c"}
